@@ -106,4 +106,5 @@ def run(ck, facts, tier):
     from ..rules import patcover
 
     patcover.run(ck, facts, "C09.pattern-cover", roles.LANG)
+    patcover.run_match_patterns(ck, facts, "C09.pattern-cover", roles.LANG)
     ck.not_decided("that consistently renaming a binder inside a macro body leaves program outputs unchanged (behavioural)")
